@@ -13,7 +13,9 @@ PROFILES = {
                     "paste": 5, "paste_range": 4, "split": 4, "join": 3, "delete": 4, "delete_range": 3,
                     "set_node_attribute": 3, "backspace": 3, "set_doc_attribute": 1}},
     "C03": {"schemas": schemas.NAMES, "byz": (0.0, 0.3), "faults": 0.5, "mix": None},
-    "C04": {"schemas": sorted(["basic", "list", "title", "headbody", "iso", "table", "strict"]),
+    # history clauses are asserted on the core schemas only (monbase.CORE_SCHEMAS); docmarks and comment
+    # are here for the "under every schema" single-step clauses
+    "C04": {"schemas": sorted(["basic", "list", "title", "headbody", "iso", "table", "strict"] * 3) + ["docmarks", "comment"],
             "byz": (0.0, 0.0), "faults": 1.0, "mix": None, "crash": True, "journal_p": 0.5},
     "C05": {"schemas": schemas.NAMES, "byz": (0.0, 0.2), "faults": 0.6,
             "mix": {"set_node_attribute": 8, "set_doc_attribute": 8, "paste": 8, "paste_range": 5,
@@ -101,6 +103,9 @@ def make_cfg(seed, prop, tier):
         "inspect_p": 0.25 if prop == "C10" else rng.choice([0.0, 0.05]),
         "move_p": 0.6 if prof.get("spread") else rng.choice([0.2, 0.4]),
         "probe17": bool(prof.get("probe17")),
+        # bounded-liveness diagnostic: a quarter of the runs continue after the last fault until
+        # every client has converged on the authority's document (or a step cap is hit)
+        "drain": rng.random() < 0.25,
         "fault_kinds": sorted(enabled),
     }
     # faults stop for the last quarter of virtual activity: convergence is then a diagnostic
